@@ -4,7 +4,7 @@
    [state_ok] of the store that the delete theorem needs. *)
 From Coq Require Import List NArith ZArith Bool Lia.
 Import ListNotations.
-From Emu.Common Require Import Bytes Str StrProofs.
+From Emu.Common Require Import Bytes Str StrProofs IntProofs.
 From Emu.Gen Require Import Consts.
 From Emu.GCS Require Import Model StoreProofs HandlerProofs.
 Local Open Scope Z_scope.
@@ -160,12 +160,12 @@ Example session_example :
   /\ session [] [ (mkBR (-1) (-1) 0, []) ] = [ ([], true) ]
   /\ consistent [] (mkBR (-1) (-1) 0) [].
 Proof.
-  cbn zeta. split; [vm_compute; reflexivity|]. split.
+  cbn zeta. split; [timeout 60 vm_compute; reflexivity|]. split.
   - apply Forall_cons; [|apply Forall_cons; [|apply Forall_cons; [|apply Forall_nil]]]; cbn [fst snd].
     + apply (cons_chunk [104; 101; 108; 108; 111]%N 0 3 (-1)); cbn; [lia|auto].
     + apply cons_status. auto.
     + apply (cons_chunk [104; 101; 108; 108; 111]%N 2 3 5); cbn; [lia|auto].
-  - split; [vm_compute; reflexivity|]. apply cons_status. cbn. auto.
+  - split; [timeout 60 vm_compute; reflexivity|]. apply cons_status. cbn. auto.
 Qed.
 
 (* ================================================================== *)
@@ -826,9 +826,9 @@ Example resumable_end_to_end_example :
   /\ state_ok s0 /\ (exists u, alookup id (s_uploads s0) = Some u /\ is_prefix (up_data u) [104; 101; 108; 108; 111]%N)
   /\ Forall (step_consistent [104; 101; 108; 108; 111]%N) steps.
 Proof.
-  cbn zeta. split; [vm_compute; reflexivity|]. split; [vm_compute; reflexivity|].
+  cbn zeta. split; [timeout 60 vm_compute; reflexivity|]. split; [timeout 60 vm_compute; reflexivity|].
   split; [apply state_ok_preserved; apply state_ok_init|].
-  split; [eexists; split; [vm_compute; reflexivity|apply is_prefix_nil]|].
+  split; [eexists; split; [timeout 60 vm_compute; reflexivity|apply is_prefix_nil]|].
   apply Forall_cons; [|apply Forall_cons; [|apply Forall_cons; [|apply Forall_nil]]].
   - exists (mkBR 0 2 (-1)). split; [reflexivity|].
     apply (cons_chunk [104; 101; 108; 108; 111]%N 0 3 (-1)); cbn; [lia|auto].
@@ -850,9 +850,103 @@ Example upload_get_delete_example :
   /\ untouched_run s1 [RDelete bk [120]%N cp; RUploadMedia bk [120]%N [117]%N [9]%N cp] bk [121]%N
   /\ r_status (snd (handle s1 (RUploadMultipart bk (mkUpMeta [120]%N [116]%N 2 []) [7]%N cp))) = 400.
 Proof.
-  cbn zeta. split; [vm_compute; reflexivity|]. split; [vm_compute; reflexivity|].
-  split; [cbn; intros [E|[]]; discriminate E|]. split; [vm_compute; discriminate|].
-  split; [|vm_compute; reflexivity].
+  cbn zeta. split; [timeout 60 vm_compute; reflexivity|]. split; [timeout 60 vm_compute; reflexivity|].
+  split; [cbn; intros [E|[]]; discriminate E|]. split; [timeout 60 vm_compute; discriminate|].
+  split; [|timeout 60 vm_compute; reflexivity].
   cbn [untouched_run targets bucket_target In].
   repeat split; try discriminate; intros [E|[]]; discriminate E.
 Qed.
+
+(* ================================================================== *)
+(* 8. Headers as a client prints them (strconv.FormatInt) parse back    *)
+
+Definition total_text (total : option Z) : str :=
+  match total with Some T => print_int T | None => s_star end.
+Definition total_value (total : option Z) : Z := match total with Some T => T | None => -1 end.
+
+(* "bytes <lo>-<hi>/<total or *>" and "bytes */<total or *>" *)
+Definition chunk_header (lo hi : Z) (total : option Z) : str :=
+  s_bytes_sp ++ print_int lo ++ s_dash ++ print_int hi ++ s_slash ++ total_text total.
+Definition status_header (total : option Z) : str :=
+  s_bytes_sp ++ s_star ++ s_slash ++ total_text total.
+
+Lemma total_text_parse total :
+  match total with Some T => 0 <= T <= int64_max | None => True end ->
+  (forallb is_digit (total_text total) = true \/ total_text total = s_star)
+  /\ (if beqb (total_text total) s_star then Some (-1)
+      else parse_int (total_text total)) = Some (total_value total).
+Proof.
+  destruct total as [T|]; cbn [total_text total_value]; [|intros _; split; [right|]; reflexivity].
+  intros HT. destruct (print_int_digits T) as [Hd [h [t [E Hh]]]]; [lia|]. split; [left; exact Hd|].
+  assert (Hb : beqb (print_int T) s_star = false).
+  { rewrite E. unfold s_star. cbn [beqb]. unfold is_digit in Hh. apply andb_prop in Hh. destruct Hh as [Hh _].
+    apply N.leb_le in Hh. destruct (N.eqb_spec h 42) as [->|_]; [lia|reflexivity]. }
+  rewrite Hb. apply parse_print_int_roundtrip. unfold int64_min. unfold int64_max in *. lia.
+Qed.
+
+Theorem chunk_header_parses lo hi total :
+  0 <= lo <= int64_max -> 0 <= hi <= int64_max ->
+  match total with Some T => 0 <= T <= int64_max | None => True end ->
+  parse_byte_range (chunk_header lo hi total) = Some (mkBR lo hi (total_value total)).
+Proof.
+  intros Hlo Hhi HT. unfold chunk_header.
+  destruct (print_int_digits lo) as [Dlo _]; [lia|]. destruct (print_int_digits hi) as [Dhi _]; [lia|].
+  destruct (total_text_parse total HT) as [Dt Pt].
+  rewrite parse_byte_range_digits by assumption.
+  rewrite !parse_print_int_roundtrip by (unfold int64_min; unfold int64_max in *; lia).
+  destruct (beqb (total_text total) s_star).
+  - injection Pt as <-. reflexivity.
+  - rewrite Pt. reflexivity.
+Qed.
+
+Theorem status_header_parses total :
+  match total with Some T => 0 <= T <= int64_max | None => True end ->
+  parse_byte_range (status_header total) = Some (mkBR (-1) (-1) (total_value total)).
+Proof.
+  intros HT. unfold status_header. destruct (total_text_parse total HT) as [Dt Pt].
+  rewrite parse_byte_range_star.
+  - destruct (beqb (total_text total) s_star).
+    + injection Pt as <-. reflexivity.
+    + rewrite Pt. reflexivity.
+  - destruct Dt as [Dt|Dt]; [apply digits_no_sep in Dt; tauto|]. rewrite Dt. intros [E|[]]. discriminate E.
+Qed.
+
+(* so the requests of a real client are consistent steps: a non-empty chunk P[lo, lo+len) with
+   total "*" or |P|, and a status/finalise request with total "*" or |P| *)
+Theorem chunk_step_consistent P lo len total :
+  Z.of_nat (length P) <= int64_max -> (1 <= len)%nat -> (lo + len <= length P)%nat ->
+  total = None \/ total = Some (Z.of_nat (length P)) ->
+  step_consistent P (chunk_header (Z.of_nat lo) (Z.of_nat lo + Z.of_nat len - 1) total,
+                     firstn len (skipn lo P)).
+Proof.
+  intros Hmax Hlen Hle Ht. exists (mkBR (Z.of_nat lo) (Z.of_nat lo + Z.of_nat len - 1) (total_value total)).
+  cbn [fst snd]. split.
+  - apply chunk_header_parses; try lia. destruct Ht as [-> | ->]; [exact I|lia].
+  - apply cons_chunk; [exact Hle|]. destruct Ht as [-> | ->]; cbn; auto.
+Qed.
+
+Theorem status_step_consistent P total :
+  Z.of_nat (length P) <= int64_max ->
+  total = None \/ total = Some (Z.of_nat (length P)) ->
+  step_consistent P (status_header total, []).
+Proof.
+  intros Hmax Ht. exists (mkBR (-1) (-1) (total_value total)). cbn [fst snd]. split.
+  - apply status_header_parses. destruct Ht as [-> | ->]; [exact I|lia].
+  - apply cons_status. destruct Ht as [-> | ->]; cbn; auto.
+Qed.
+
+(* ================================================================== *)
+(* 9. Findings about the resumable protocol (concrete witnesses)        *)
+
+(* the declared total is not checked against the data: "bytes 0-4/3" with five bytes is accepted
+   and completes the upload with all five *)
+Lemma resume_total_smaller_than_data_witness :
+  resume_apply [] (mkBR 0 4 3) [1; 2; 3; 4; 5]%N = Some [1; 2; 3; 4; 5]%N
+  /\ resume_done (mkBR 0 4 3) [1; 2; 3; 4; 5]%N = true.
+Proof. split; reflexivity. Qed.
+
+(* a re-send at a lower offset discards the bytes held beyond it, even if the new chunk is shorter
+   (still a prefix of the payload for a consistent client, so C02 is unaffected) *)
+Lemma resume_resend_truncates_witness :
+  resume_apply [1; 2; 3; 4; 5; 6]%N (mkBR 0 1 (-1)) [1; 2]%N = Some [1; 2]%N.
+Proof. reflexivity. Qed.
